@@ -19,6 +19,7 @@ pub enum Family {
     C14,
     C15,
     C16,
+    C17,
 }
 
 impl Family {
@@ -36,6 +37,7 @@ impl Family {
             "C14" => Family::C14,
             "C15" => Family::C15,
             "C16" => Family::C16,
+            "C17" => Family::C17,
             _ => return None,
         })
     }
@@ -53,6 +55,7 @@ impl Family {
             Family::C14 => "C14",
             Family::C15 => "C15",
             Family::C16 => "C16",
+            Family::C17 => "C17",
         }
     }
 }
@@ -70,6 +73,7 @@ pub const ALL_FAMILIES: &[Family] = &[
     Family::C14,
     Family::C15,
     Family::C16,
+    Family::C17,
 ];
 
 pub fn generate(f: Family, ch: &mut Choices) -> Plan {
@@ -86,6 +90,7 @@ pub fn generate(f: Family, ch: &mut Choices) -> Plan {
         Family::C14 => gen_outbound(OutKind::C14, ch),
         Family::C15 => gen_c15(ch),
         Family::C16 => gen_c16(ch),
+        Family::C17 => gen_c17(ch),
     }
 }
 
@@ -135,6 +140,7 @@ pub fn base_plan(family: &'static str, role: Role, ch: &mut Choices) -> Plan {
             connack_props: Vec::new(),
             connack_session_present: false,
             script: Vec::new(),
+            script2: Vec::new(),
             auto_ack: true,
             deviation: AckDeviation::None,
             deviation_at: 0,
@@ -809,10 +815,11 @@ fn gen_c15(ch: &mut Choices) -> Plan {
         match ch.choose(if server { 13 } else { 9 }) {
             0 => {
                 // application closes
-                let op = match ch.choose(4) {
+                let op = match ch.choose(5) {
                     0 => AppOp::Close,
                     1 => AppOp::CloseReason(*ch.pick(&[0x8bu8, 0x00, 0x98])),
                     2 => AppOp::CloseNoReason,
+                    3 => AppOp::CloseTwice(*ch.pick(&[0x8bu8, 0x00])),
                     _ => AppOp::ForceClose,
                 };
                 plan.tags.push(format!("inject:app-{op:?}"));
@@ -946,6 +953,86 @@ fn gen_c15(ch: &mut Choices) -> Plan {
     }
     plan.ending = Ending::SettleThenFin;
     plan.max_steps = 12_000;
+    plan
+}
+
+
+// ------------------------------------------------------------------------------------------
+// C17: MQTT 5 topic aliases always resolve to the right topic
+
+pub const C17_TOPICS: [&str; 5] = ["a", "b/1", "t/5", "x/y", "b/2"];
+
+fn c17_script(ch: &mut Choices, max_alias: u16, tag_base: u32, violate: bool) -> Vec<PeerStep> {
+    let ver = Ver::V5;
+    let mut script = Vec::new();
+    let n = 2 + ch.choose(7);
+    let mut bound: Vec<u16> = Vec::new();
+    for i in 0..n {
+        let alias = 1 + ch.choose(u32::from(max_alias.max(1))) as u16;
+        let topic = *ch.pick(&C17_TOPICS);
+        let qos = ch.choose(2) as u8;
+        let pid = if qos > 0 { Some(100 + i as u16) } else { None };
+        // bind/rebind (topic + alias), use (alias only), plain publish
+        let kind = if bound.contains(&alias) { ch.weighted(&[30, 50, 20]) } else { ch.weighted(&[60, 0, 40]) };
+        let mut p = rc::Publish { dup: false, qos, retain: false, topic: String::new(), pid, props: Vec::new(), payload: crate::world::make_payload(tag_base + i, 3 + (i as usize % 5)) };
+        match kind {
+            0 => {
+                p.topic = topic.to_string();
+                p.props.push((35, PropVal::U16(alias)));
+                if !bound.contains(&alias) {
+                    bound.push(alias);
+                }
+            }
+            1 => p.props.push((35, PropVal::U16(alias))),
+            _ => p.topic = topic.to_string(),
+        }
+        script.push(step(Pkt::Publish(p), ver, Pre::Connected));
+    }
+    if violate {
+        // an alias that was never bound, or one beyond the advertised maximum
+        let at = ch.choose(script.len() as u32 + 1) as usize;
+        let mut p = rc::Publish { dup: false, qos: 0, retain: false, topic: String::new(), pid: None, props: Vec::new(), payload: crate::world::make_payload(tag_base + 90, 4) };
+        if ch.chance(1, 2) {
+            // never bound before this point: use an alias no earlier step binds
+            let unb = (1..=max_alias.max(1)).find(|a| {
+                !script[..at].iter().any(|s| matches!(&s.pkt, Some(Pkt::Publish(q)) if !q.topic.is_empty() && rc::prop_u16(&q.props, 35) == Some(*a)))
+            });
+            match unb {
+                Some(a) => p.props.push((35, PropVal::U16(a))),
+                None => {
+                    p.topic = "a".into();
+                    p.props.push((35, PropVal::U16(max_alias + 1)));
+                }
+            }
+        } else {
+            p.topic = "a".into();
+            p.props.push((35, PropVal::U16(max_alias + 1 + ch.choose(3) as u16)));
+        }
+        script.insert(at, step(Pkt::Publish(p), ver, Pre::Connected));
+    }
+    script
+}
+
+fn gen_c17(ch: &mut Choices) -> Plan {
+    let role = if ch.chance(2, 3) { Role::S5 } else { Role::C5 };
+    let mut plan = base_plan("C17", role, ch);
+    plan.cfg.use_router = ch.chance(1, 2);
+    plan.p_immediate = *ch.pick(&[1000u32, 0, 500]);
+    let max_alias = 1 + ch.choose(3) as u16;
+    if role.is_server() {
+        plan.cfg.max_topic_alias = max_alias;
+        plan.conns = 2;
+    } else {
+        plan.cfg.client_topic_alias_max = max_alias;
+    }
+    plan.tags.push(format!("max-alias:{max_alias}"));
+    let v1 = ch.chance(1, 3);
+    plan.peer.script = c17_script(ch, max_alias, 0, v1);
+    if role.is_server() {
+        let v2 = ch.chance(1, 3);
+        plan.peer.script2 = c17_script(ch, max_alias, 1000, v2);
+    }
+    plan.ending = Ending::Settle;
     plan
 }
 
